@@ -271,7 +271,9 @@ fn rewrites(name: &str, text: &str, project: &Project, rng: &mut Rng, per_kind: 
   let mut exprs = Vec::new();
   collect_exprs(&tree, "operand", &mut exprs);
   rng.shuffle(&mut exprs);
-  for (k, (l, nkind, role)) in exprs.iter().take(per_kind * 2).enumerate() {
+  // the zoo modules are small: wrap every one of their expressions, both ways
+  let zoo = name == "Zoo";
+  for (k, (l, nkind, role)) in exprs.iter().flat_map(|e| if zoo { vec![e, e] } else { vec![e] }).take(if zoo { usize::MAX } else { per_kind * 2 }).enumerate() {
     if let Some(src) = slice(text, l) {
       let (kind, wrapped) = if k % 2 == 0 { ("wrap-in-parentheses", format!("({src})")) } else { ("wrap-in-block", format!("{{ {src} }}")) };
       if let Some(t) = apply(text, &[(*l, wrapped)]) {
